@@ -1,6 +1,7 @@
 import Cppcheck.Proofs.Calc
 import Cppcheck.Proofs.Infer
 import Cppcheck.Proofs.VFValidator
+import Cppcheck.Proofs.MiniC
 /-
 C01 — value-flow facts hold in every UB-free execution.  Property theorems.
 
@@ -122,5 +123,24 @@ example :
           (.seq (.ite (.bin .lt (.var 0) (.lit 4 tInt)) (.assign 11 1 (.bin .add (.tag 1 (.var 0)) (.lit 1 tInt))) .skip)
             (.ret (.tag 2 (.var 1))))⟩
       ⟨2, .impossible, .lower, 5⟩ = true := by decide
+
+open Cppcheck.MiniC in
+/-- the executable interpreter agrees with the inductive big-step semantics: a statement has the outcome `o` with events `evs`
+    iff some amount of fuel makes the interpreter return exactly that (and not `timeout`) -/
+theorem interpreter_agrees_bigstep (P : Cppcheck.Platforms.Platform) (vars : List Ty) (σ : Env) (st : Stmt) (o : Out) (evs : List Event) :
+    BigStep P vars σ st o evs ↔ ∃ n, execS P vars n σ st = (o, evs) ∧ o.isTimeout = false :=
+  bigstep_iff_exec σ st o evs
+
+open Cppcheck.MiniC Cppcheck.VFV in
+/-- `validator_sound` in terms of the big-step semantics, as the property states it: in every terminating execution of `f`
+    that is free of undefined behaviour, the fact holds at each evaluation of its occurrence. -/
+theorem validator_sound_bigstep (P : Cppcheck.Platforms.Platform) (f : Func) (φ : Fact) (h : validate P f φ = true)
+    (args : List Int) (o : Out) (evs : List Event) (hex : BigStep P f.vars (initEnv P f args) f.body o evs) (_hub : o ≠ .ub) :
+    ∀ ev ∈ evs, ev.1 = φ.occ → φ.holds ev.2 := by
+  obtain ⟨n, hn⟩ := bigstep_exec hex
+  have := validate_sound P f φ h args n
+  unfold run at this
+  rw [hn] at this
+  exact this
 
 end Cppcheck.C01
